@@ -179,6 +179,11 @@ def commasOf (kids : List Tree) : List Tree := kids.filter (fun t => t.kind == .
 def noComment (w : List Char) : Bool := !(w.contains '#')
 def blankWs (t : Tree) : Bool := noComment t.ws
 
+/-- an empty inner argument list must not hold a comment either (the whitespaces of `[` are moved there when the
+array is empty) -/
+def emptyArgsNoComment : Tree → Bool
+  | .node _ _ _ kids w => !(positional kids).isEmpty || !(keywords kids).isEmpty || noComment w
+
 /-- one turn of the `while` loop: the call `files(<one array, no keywords>)` gets the array's own argument list,
 unless one of the whitespace nodes that would be dropped (of the two brackets, of the array, of the outer
 argument list and of its commas) holds a comment -/
@@ -190,7 +195,7 @@ def flattenStep : Tree → Option Tree
         match positional akids with
         | [.node .array afl2 atx2 [lb, inner, rb] arrws] =>
           if blankWs lb && blankWs rb && noComment arrws && noComment aws &&
-             (commasOf akids).all blankWs && inner.kind == .args then
+             (commasOf akids).all blankWs && inner.kind == .args && emptyArgsNoComment inner then
             some (.node .func fl tx [nm, lp, inner, rp] ws)
           else none
         | _ => none
